@@ -23,7 +23,9 @@ Local Open Scope Z_scope.
    the compiler's for / range / break / continue are modelled in Spec.v (conventional semantics,
    with fuel), Compile.v and Wasm.v (block / loop / br with the compiler's depth bookkeeping) and
    are covered by the byte-for-byte and value correspondence and by the monitor on every run,
-   not by this theorem.
+   not by this theorem. The same holds for STATEFUL VARIABLES ($=): [loop_free_block] also excludes
+   them; Spec.spec_calls / Wasm.wasm_calls (sequences of invocations, host table of
+   stl/stateful) are compared with the real tool chain on every run.
    The full statement (without the two guard hypotheses) is FALSE: see the _refuted theorems. *)
 Theorem C19_compile_correct_partial : forall (fo : float_ops) (f : func) (args : list (val fo)),
   check_func f = true -> locals_ok f = true ->
@@ -54,7 +56,7 @@ Print Assumptions C19_validates_partial.
    create: the emitted code pushes the register image of the specified value on any stack. *)
 Theorem C19_expr_correct_partial : forall (fo : float_ops) (tys : list ty) (sc : list nat) (e : expr)
     (hint : option ty) (t : ty),
-  type_of tys sc e = Some t ->
+  type_of tys sc e = Some t -> pure_expr e = true ->
   hint_ok tys hint e = true -> float_mod_free tys e = true ->
   exists code, cexpr tys hint e = Some (code, t) /\
     forall r ls, sim fo tys sc r ls -> dflags fo tys r e = [] ->
